@@ -208,7 +208,8 @@ def build(case, pl):
         o, k = obj[c], kinds[c]
         real = ([f.ftype for f in o._fields] + list(o._depends_on) if k in ("struct", "hybrid") else [o._itemtype] if k == "array"
                 else [o._reftype] if k == "ref" else list(o._reftypes) if k == "union" else list(o._depends_on) if k == "duck" else [])
-        if len(real) != len(edges[c]) or any(r is not obj[t] for r, (t, _) in zip(real, edges[c])):
+        # (a hybrid class is declared with the hybrid classes of its targets; swapping in their structs is the library's job and under test)
+        if len(real) != len(edges[c]) or any(r is not obj[t] and not (k == "hybrid" and r is hyb.get(t)) for r, (t, _) in zip(real, edges[c])):
             raise C.MachineryError(f"harness: class {c} ({k}) was not built with the planned edges {edges[c]}: {real}")
     return obj
 
@@ -366,18 +367,26 @@ def _work_build(job):
 
 # ----------------------------------------------------------------------------- TLC: model checking + export
 CONFIGS = {
+    # Most digraphs are cyclic, so every tier spends its budget separately on acyclic graphs (ordering half of the contract,
+    # rich variation: duplicates, long lists, root lists with repeats) and on cyclic ones (error half).
     "quick": [
-        # graphs on <= 3 classes, dependency lists with duplicates, root lists with repeats
-        dict(tag="L3", consts='N = 3 MaxDeps = 2 DepMode = "lists" SelfDeps = FALSE MaxRoots = 3 DupRoots = TRUE ApiAll = FALSE SplitModes = {"half"}', parts=6),
-        # graphs on <= 3 classes with self-dependencies (dependency sets of any size)
-        dict(tag="S3", consts='N = 3 MaxDeps = 3 DepMode = "sets" SelfDeps = TRUE MaxRoots = 3 DupRoots = FALSE ApiAll = FALSE SplitModes = {"half"}', parts=4),
-        # longer dependency lists with duplicates (two fields of one type next to a third dependency), every class with an API
-        dict(tag="D3", consts='N = 3 MaxDeps = 3 DepMode = "lists" SelfDeps = FALSE MaxRoots = 2 DupRoots = FALSE ApiAll = TRUE SplitModes = {"half"}', parts=2),
+        # acyclic graphs on <= 3 classes, dependency lists up to 3 entries with duplicates, root lists with repeats
+        dict(tag="A3", consts='N = 3 MaxDeps = 3 DepMode = "lists" SelfDeps = FALSE MaxRoots = 3 DupRoots = TRUE ApiAll = FALSE Shape = "acyclic" SplitModes = {"half"}', parts=5),
+        # cyclic graphs on <= 3 classes with duplicate entries
+        dict(tag="C3", consts='N = 3 MaxDeps = 2 DepMode = "lists" SelfDeps = FALSE MaxRoots = 2 DupRoots = TRUE ApiAll = FALSE Shape = "cyclic" SplitModes = {"half"}', parts=3),
+        # all graphs on <= 3 classes as dependency SETS, self-dependencies included, all root orders
+        dict(tag="S3", consts='N = 3 MaxDeps = 3 DepMode = "sets" SelfDeps = TRUE MaxRoots = 3 DupRoots = FALSE ApiAll = FALSE Shape = "any" SplitModes = {"half"}', parts=4),
     ],
     "thorough": [
-        dict(tag="L3", consts='N = 3 MaxDeps = 2 DepMode = "lists" SelfDeps = TRUE MaxRoots = 3 DupRoots = TRUE ApiAll = FALSE SplitModes = {"half"}', parts=8),
-        dict(tag="S3", consts='N = 3 MaxDeps = 3 DepMode = "nodup" SelfDeps = TRUE MaxRoots = 3 DupRoots = TRUE ApiAll = FALSE SplitModes = {"inner", "decl", "half"}', parts=8),
-        dict(tag="S4", consts='N = 4 MaxDeps = 3 DepMode = "sets" SelfDeps = FALSE MaxRoots = 4 DupRoots = FALSE ApiAll = FALSE SplitModes = {"half"}', parts=16),
+        dict(tag="A3", consts='N = 3 MaxDeps = 3 DepMode = "lists" SelfDeps = FALSE MaxRoots = 3 DupRoots = TRUE ApiAll = FALSE Shape = "acyclic" SplitModes = {"inner", "decl", "half"}', parts=6),
+        dict(tag="C3", consts='N = 3 MaxDeps = 2 DepMode = "lists" SelfDeps = TRUE MaxRoots = 2 DupRoots = TRUE ApiAll = FALSE Shape = "cyclic" SplitModes = {"half"}', parts=8),
+        dict(tag="S3", consts='N = 3 MaxDeps = 3 DepMode = "sets" SelfDeps = TRUE MaxRoots = 3 DupRoots = TRUE ApiAll = FALSE Shape = "any" SplitModes = {"half"}', parts=6),
+        # every DAG on <= 4 classes, every order of every dependency list, every API flag, all root choices and orders
+        dict(tag="A4", consts='N = 4 MaxDeps = 3 DepMode = "nodup" SelfDeps = FALSE MaxRoots = 4 DupRoots = FALSE ApiAll = FALSE Shape = "acyclic" SplitModes = {"half"}', parts=16),
+        # DAGs on <= 4 classes with duplicate entries
+        dict(tag="D4", consts='N = 4 MaxDeps = 2 DepMode = "lists" SelfDeps = FALSE MaxRoots = 2 DupRoots = FALSE ApiAll = TRUE Shape = "acyclic" SplitModes = {"half"}', parts=4),
+        # every cyclic graph on <= 4 classes (dependency sets)
+        dict(tag="C4", consts='N = 4 MaxDeps = 3 DepMode = "sets" SelfDeps = FALSE MaxRoots = 2 DupRoots = FALSE ApiAll = TRUE Shape = "cyclic" SplitModes = {"half"}', parts=4),
     ],
 }
 GEN_CFG = """SPECIFICATION GSpec
@@ -391,11 +400,11 @@ CONSTANTS {c} Fixed = TRUE NParts = 1 Part = 0
 PROPERTY Terminates
 """
 PINNED_CFG = """SPECIFICATION Spec
-CONSTANTS N = 2 MaxDeps = 2 DepMode = "lists" SelfDeps = FALSE MaxRoots = 2 DupRoots = FALSE ApiAll = FALSE SplitModes = {"half"} Fixed = FALSE NParts = 1 Part = 0
+CONSTANTS N = 2 MaxDeps = 2 DepMode = "lists" SelfDeps = FALSE MaxRoots = 2 DupRoots = FALSE ApiAll = FALSE Shape = "any" SplitModes = {"half"} Fixed = FALSE NParts = 1 Part = 0
 INVARIANT ImplMeetsContract
 """
-LIVE = {"quick": 'N = 2 MaxDeps = 2 DepMode = "lists" SelfDeps = TRUE MaxRoots = 2 DupRoots = TRUE ApiAll = FALSE SplitModes = {"half"}',
-        "thorough": 'N = 3 MaxDeps = 3 DepMode = "sets" SelfDeps = TRUE MaxRoots = 2 DupRoots = TRUE ApiAll = FALSE SplitModes = {"half"}'}
+LIVE = {"quick": 'N = 2 MaxDeps = 2 DepMode = "lists" SelfDeps = TRUE MaxRoots = 2 DupRoots = TRUE ApiAll = FALSE Shape = "any" SplitModes = {"half"}',
+        "thorough": 'N = 3 MaxDeps = 3 DepMode = "sets" SelfDeps = TRUE MaxRoots = 2 DupRoots = TRUE ApiAll = FALSE Shape = "any" SplitModes = {"half"}'}
 
 
 def tlc_jobs(run, tier):
@@ -513,6 +522,9 @@ def check(pid, argv=None):
     else:
         cases = tlc_jobs(run, tier)
         seed = run.seed
+        if tier == "thorough":
+            # a second, differently seeded realisation (other node / edge kinds, other names) of every acyclic case
+            cases += [dict(c, tag=c["tag"] + "b") for c in cases if c["k"] == "ok"]
     run.notes["t_tlc_model_and_export"] = round(time.time() - t1, 1)
 
     # ---- spec -> code: realise every case, run the real library
@@ -585,12 +597,16 @@ def check(pid, argv=None):
         groups.setdefault(_signature(dict(case, k=rec["k"]), aux), []).append(i)
     rng = random.Random(f"{seed}:sample")
     pick = []
-    pools = [rng.sample(g, len(g)) for g in groups.values()]
-    rng.shuffle(pools)
-    while len(pick) < min(BUILD_SAMPLE[tier], len(cases)) and any(pools):
-        for g in pools:
-            if g and len(pick) < BUILD_SAMPLE[tier]:
-                pick.append(g.pop())
+    for want_ok, quota in ((True, BUILD_SAMPLE[tier] - BUILD_SAMPLE[tier] // 6), (False, BUILD_SAMPLE[tier] // 6)):
+        # one case per signature (kinds of the nodes, number of edges) in turn; mostly acyclic cases, they are the ones that get built
+        pools = [rng.sample(g, len(g)) for sig, g in groups.items() if (sig[2] == "ok") == want_ok]
+        rng.shuffle(pools)
+        got = 0
+        while got < quota and any(pools):
+            for g in pools:
+                if g and got < quota:
+                    pick.append(g.pop())
+                    got += 1
     bjobs = [(cases[i], results[i][1]["rseed"], run.tmp) for i in pick]
     with mp.get_context("fork").Pool(nproc) as pool:
         bres = pool.map(_work_build, bjobs)
@@ -625,7 +641,7 @@ def check(pid, argv=None):
         miss = [k for k in need if not stats[k]]
         if miss or not run.notes["cyclic_cases"]:
             raise C.MachineryError(f"vacuous run: never exercised {miss} / cyclic={run.notes['cyclic_cases']}")
-    run.cov["exhaustive"] = True
+    run.cov["exhaustive"] = False      # exhaustive over the abstract cases within the bounds; node/edge kinds are sampled per case
     run.finish()
 
 
